@@ -40,7 +40,7 @@ def make_system(rnd):
     # decorative chains / trees
     dec = []
     for i in range(rnd.randint(0, 3)):
-        d = 'd%d' % i
+        d = 'ma%d' % i       # (contains the alias name a<i>: whole-token replacement only)
         src = rnd.sample(usable + dec, min(2, len(usable + dec)))
         lines.append('%s = %s' % (d, ' + '.join('%s*%s' % (round(rnd.uniform(0.5, 2), 1), s) for s in src)))
         dec.append(d)
